@@ -63,8 +63,10 @@ func ZZ_C12_Remaining() {
 	}
 	qos := uint8(zzrt.Choice(3))
 	waited := zzrt.Int64()
-	// the message waited 0 <= waited < E seconds (it has not expired)
-	zzrt.Assume(waited >= 0 && waited < int64(E)*int64(time.Second))
+	// the message waited 0 <= waited <= E seconds when Read handed it out (the queue hands
+	// out a message whose deadline is now: it has not elapsed yet), plus whatever passes
+	// before the publish is built (slack)
+	zzrt.Assume(waited >= 0 && waited <= int64(E)*int64(time.Second)+(1<<32))
 	// Read blocks for `idle` before it returns (the subscriber was idle); the message was
 	// queued `waited` before Read returns - before or while the poll was blocked
 	idle := zzrt.Int64()
@@ -92,10 +94,18 @@ func ZZ_C12_Remaining() {
 		zzrt.Assert(pub.Properties != nil && pub.Properties.MessageExpiry != nil, "v5-expiry-never-absent")
 		got := *pub.Properties.MessageExpiry
 		zzrt.Observe("got", got)
-		want := E - uint32(waited/int64(time.Second))
 		zzrt.Assert(got <= E, "v5-expiry-not-more-than-original")
-		zzrt.Assert(got == want, "v5-expiry-is-original-minus-waited-seconds")
-		zzrt.Cover("v5-checked")
+		zzrt.Assert(got >= 1, "v5-expiry-never-absent")
+		if zzrt.ConcreteBool(waited/int64(time.Second) < int64(E)) {
+			want := E - uint32(waited/int64(time.Second))
+			zzrt.Assert(got == want, "v5-expiry-is-original-minus-waited-seconds")
+			zzrt.Cover("v5-checked")
+		} else {
+			// the whole lifetime is used up at the moment of delivery: nothing but the
+			// smallest present value is left
+			zzrt.Assert(got == 1, "v5-expiry-at-the-deadline-is-the-smallest-present-value")
+			zzrt.Cover("v5-at-deadline")
+		}
 	} else {
 		zzrt.Assert(pub.Properties == nil || pub.Properties.MessageExpiry == nil, "v3-no-expiry-property")
 		zzrt.Cover("v3-checked")
